@@ -1,4 +1,5 @@
-"""C16: get_next_point(p) is None for p more than one step below the start.
+"""[FIXED by repo commit 98fc1d0; now prints "not reproduced"]
+C16: get_next_point(p) is None for p more than one step below the start.
 
 IntegerSequence.get_next_point docstring: "Return the next point > point, or
 None if out of bounds".  For a one-off sequence a point below the start gives
